@@ -568,9 +568,11 @@ class WebSocket(object):
                     self._get_session(state).send_compressed(
                         Opcode.BINARY, _payload
                     )
-                except errors.WebSocketError:
-                    # The server never saw this message, the next one
-                    # must not refer back to it
+                except BaseException:
+                    # The server never saw this message (whatever it was
+                    # that got in the way, a KeyboardInterrupt or an
+                    # exception from a signal handler included), the
+                    # next one must not refer back to it
                     state.compression.reset_compressor()
                     raise
                 finally:
@@ -631,9 +633,11 @@ class WebSocket(object):
                     self._get_session(state).send_compressed(
                         Opcode.TEXT, _payload
                     )
-                except errors.WebSocketError:
-                    # The server never saw this message, the next one
-                    # must not refer back to it
+                except BaseException:
+                    # The server never saw this message (whatever it was
+                    # that got in the way, a KeyboardInterrupt or an
+                    # exception from a signal handler included), the
+                    # next one must not refer back to it
                     state.compression.reset_compressor()
                     raise
                 finally:
